@@ -18,8 +18,12 @@ VARIABLES st,     \* status
           cst,    \* cancellation: 0 none, 1 requested, 2 request returned, 3 honoured
           starts, \* number of Start observations of the current incarnation
           inYield,\* the unit announced a scheduling point and has not reported back
-          mg      \* migration (C13), per unit: [pool, old, pend, armed, must, ncb, able]
-hvars == <<st, arg, tok, cst, starts, inYield, mg>>
+          mg,     \* migration (C13), per unit: [pool, old, pend, armed, must, ncb, able]
+          inpool, \* directed switches (C11): the unit is in its pool
+          expect, \* who must run next on the calling stream and what it must observe
+          rin     \* units whose ABT_thread_resume by another thread is in progress
+hvars == <<st, arg, tok, cst, starts, inYield, mg, inpool, expect, rin>>
+NoExpect == [next |-> 0, of |-> 0, ost |-> 0]
 
 NoPool == -2      \* no pending target
 AnyPool == -1     \* target chosen by the runtime (ABT_thread_migrate) / not yet observed
@@ -27,7 +31,7 @@ Mg0 == [pool |-> NoPool, old |-> NoPool, pend |-> NoPool, armed |-> FALSE, must 
 
 HInit == /\ st = [u \in Units |-> "none"] /\ arg = [u \in Units |-> 0] /\ tok = [u \in Units |-> 0]
          /\ cst = [u \in Units |-> 0] /\ starts = [u \in Units |-> 0] /\ inYield = [u \in Units |-> FALSE]
-         /\ mg = [u \in Units |-> Mg0]
+         /\ mg = [u \in Units |-> Mg0] /\ inpool = [u \in Units |-> FALSE] /\ expect = NoExpect /\ rin = {}
 
 ByOK(by) == IF by <= 0 THEN TRUE ELSE st[by] = "running"
 Terminated(u) == st[u] \in {"done", "freed"}
@@ -36,14 +40,16 @@ Create(by, u, a, pool, able) ==
     /\ ByOK(by) /\ st[u] = "none"
     /\ st' = [st EXCEPT ![u] = "created"] /\ arg' = [arg EXCEPT ![u] = a]
     /\ mg' = [mg EXCEPT ![u] = [Mg0 EXCEPT !.pool = pool, !.able = able]]
-    /\ UNCHANGED <<tok, cst, starts, inYield>>
+    /\ inpool' = [inpool EXCEPT ![u] = TRUE]
+    /\ UNCHANGED <<tok, cst, starts, inYield, expect, rin>>
 \* the function is invoked exactly once, with the argument it was given
 Start(u, a, n) == /\ st[u] = "created" /\ a = arg[u] /\ n = 1
                   /\ st' = [st EXCEPT ![u] = "running"] /\ starts' = [starts EXCEPT ![u] = @ + 1]
-                  /\ UNCHANGED <<arg, tok, cst, inYield, mg>>
+                  /\ inpool' = [inpool EXCEPT ![u] = FALSE]
+                  /\ UNCHANGED <<arg, tok, cst, inYield, mg, expect, rin>>
 Finish(u) == /\ st[u] = "running"
              /\ st' = [st EXCEPT ![u] = "done"] /\ tok' = [tok EXCEPT ![u] = arg[u]]
-             /\ UNCHANGED <<arg, cst, starts, inYield, mg>>
+             /\ UNCHANGED <<arg, cst, starts, inYield, mg, inpool, expect, rin>>
 \* a scheduling point: a unit whose cancellation request has returned stops
 \* here; a unit with an accepted migration request must move before it runs again
 Yield(u) == /\ st[u] = "running"
@@ -51,7 +57,7 @@ Yield(u) == /\ st[u] = "running"
                              ELSE UNCHANGED <<st, cst>>
             /\ inYield' = [inYield EXCEPT ![u] = TRUE]
             /\ mg' = [mg EXCEPT ![u].must = mg[u].armed]
-            /\ UNCHANGED <<arg, tok, starts>>
+            /\ UNCHANGED <<arg, tok, starts, inpool, expect, rin>>
 \* the unit runs again; p = the pool it was taken from (NoPool when not reported)
 Back(u, p) ==
     /\ st[u] = "running" /\ inYield' = [inYield EXCEPT ![u] = FALSE]
@@ -60,37 +66,42 @@ Back(u, p) ==
        ELSE IF mg[u].pool = AnyPool
             THEN p # mg[u].old /\ mg' = [mg EXCEPT ![u].pool = p]      \* some *other* stream's pool
             ELSE p = mg[u].pool /\ UNCHANGED mg
-    /\ UNCHANGED <<st, arg, tok, cst, starts>>
+    /\ UNCHANGED <<st, arg, tok, cst, starts, inpool, expect, rin>>
 \* unobserved: a unit waiting at a scheduling point whose cancellation has been
 \* requested is terminated instead of being run again
 Honour(u) == /\ st[u] = "running" /\ inYield[u] /\ cst[u] \in {1, 2}
              /\ st' = [st EXCEPT ![u] = "done"] /\ cst' = [cst EXCEPT ![u] = 3]
-             /\ UNCHANGED <<arg, tok, starts, inYield, mg>>
+             /\ UNCHANGED <<arg, tok, starts, inYield, mg, inpool, expect, rin>>
 Suspend(u) == /\ st[u] = "running" /\ st' = [st EXCEPT ![u] = "blocked"]
               /\ mg' = [mg EXCEPT ![u].must = mg[u].armed]
-              /\ UNCHANGED <<arg, tok, cst, starts, inYield>>
+              /\ UNCHANGED <<arg, tok, cst, starts, inYield, inpool, expect, rin>>
 \* a suspended unit runs again only after it is resumed, and once per resume;
 \* if it was cancelled meanwhile it terminates instead of running
 Resume(by, u) == /\ ByOK(by) /\ st[u] = "blocked"
                  /\ IF cst[u] = 2 THEN st' = [st EXCEPT ![u] = "done"] /\ cst' = [cst EXCEPT ![u] = 3]
                                   ELSE st' = [st EXCEPT ![u] = "resumable"] /\ UNCHANGED cst
-                 /\ UNCHANGED <<arg, tok, starts, inYield, mg>>
+                 /\ inpool' = [inpool EXCEPT ![u] = TRUE]          \* pushed back to its pool
+                 /\ rin' = rin \cup {u}
+                 /\ UNCHANGED <<arg, tok, starts, inYield, mg, expect>>
+ResumeRet(by, u) == /\ ByOK(by) /\ rin' = rin \ {u}
+                    /\ UNCHANGED <<st, arg, tok, cst, starts, inYield, mg, inpool, expect>>
 Resumed(u) == /\ st[u] = "resumable" /\ st' = [st EXCEPT ![u] = "running"]
-              /\ UNCHANGED <<arg, tok, cst, starts, inYield, mg>>
+              /\ UNCHANGED <<arg, tok, cst, starts, inYield, mg, inpool, expect, rin>>
 Cancel(by, u) == /\ ByOK(by) /\ cst[u] = 0 /\ ~Terminated(u) /\ st[u] # "none"
-                 /\ cst' = [cst EXCEPT ![u] = 1] /\ UNCHANGED <<st, arg, tok, starts, inYield, mg>>
-CancelRet(by, u) == /\ cst[u] = 1 /\ cst' = [cst EXCEPT ![u] = 2] /\ UNCHANGED <<st, arg, tok, starts, inYield, mg>>
+                 /\ cst' = [cst EXCEPT ![u] = 1] /\ UNCHANGED <<st, arg, tok, starts, inYield, mg, inpool, expect, rin>>
+CancelRet(by, u) == /\ cst[u] = 1 /\ cst' = [cst EXCEPT ![u] = 2] /\ UNCHANGED <<st, arg, tok, starts, inYield, mg, inpool, expect, rin>>
 \* join returns only after termination, sees TERMINATED and the target's writes
 JoinRet(by, u, state, t) == /\ ByOK(by) /\ st[u] = "done" /\ state = 3 /\ t = tok[u]
                             /\ UNCHANGED hvars
 FreeRet(by, u, isnull, t) == /\ ByOK(by) /\ st[u] = "done" /\ isnull = 1 /\ t = tok[u]
-                             /\ st' = [st EXCEPT ![u] = "freed"] /\ UNCHANGED <<arg, tok, cst, starts, inYield, mg>>
+                             /\ st' = [st EXCEPT ![u] = "freed"] /\ UNCHANGED <<arg, tok, cst, starts, inYield, mg, inpool, expect, rin>>
 Revive(by, u, a, pool) ==
     /\ ByOK(by) /\ st[u] = "done"
     /\ st' = [st EXCEPT ![u] = "created"] /\ arg' = [arg EXCEPT ![u] = a]
     /\ tok' = [tok EXCEPT ![u] = 0] /\ cst' = [cst EXCEPT ![u] = 0]
     /\ starts' = [starts EXCEPT ![u] = 0] /\ inYield' = [inYield EXCEPT ![u] = FALSE]
     /\ mg' = [mg EXCEPT ![u] = [Mg0 EXCEPT !.pool = pool, !.able = mg[u].able]]
+    /\ inpool' = [inpool EXCEPT ![u] = TRUE] /\ UNCHANGED <<expect, rin>>
 
 \* ---------------------------------------------------------------- migration
 \* A request names a target pool (or AnyPool).  It is accepted iff the unit is
@@ -99,7 +110,7 @@ Revive(by, u, a, pool) ==
 MigReq(by, u, tgt) ==
     /\ ByOK(by) /\ st[u] \in {"created", "running", "blocked", "resumable"}
     /\ mg' = [mg EXCEPT ![u].pend = IF mg[u].able /\ tgt # mg[u].pool THEN tgt ELSE @]
-    /\ UNCHANGED <<st, arg, tok, cst, starts, inYield>>
+    /\ UNCHANGED <<st, arg, tok, cst, starts, inYield, inpool, expect, rin>>
 \* ret: 0 accepted, 1 rejected: same pool, 2 rejected: not migratable, 3 "no target stream"
 MigRet(by, u, ret) ==
     /\ CASE ret = 0 -> mg[u].able                  \* (the target check was made at MigReq)
@@ -108,14 +119,103 @@ MigRet(by, u, ret) ==
          [] OTHER -> FALSE                         \* ABT_thread_migrate must find another running stream
     \* armed unless the migration has already been performed meanwhile
     /\ mg' = [mg EXCEPT ![u].armed = (ret = 0 /\ mg[u].pend # NoPool)]
-    /\ UNCHANGED <<st, arg, tok, cst, starts, inYield>>
+    /\ UNCHANGED <<st, arg, tok, cst, starts, inYield, inpool, expect, rin>>
 \* the migration callback: the migration is performed here, exactly once per request
 MigCb(u) ==
     /\ mg[u].pend # NoPool
     /\ mg' = [mg EXCEPT ![u] = [@ EXCEPT !.old = mg[u].pool, !.pool = mg[u].pend, !.pend = NoPool,
                                          !.armed = FALSE, !.must = FALSE, !.ncb = @ + 1]]
-    /\ UNCHANGED <<st, arg, tok, cst, starts, inYield>>
+    /\ UNCHANGED <<st, arg, tok, cst, starts, inYield, inpool, expect, rin>>
 MigCount(u, n) == n = mg[u].ncb /\ UNCHANGED hvars
+
+\* ---------------------------------------------------------------- directed switches (C11)
+\* observed thread states: 0 READY, 1 RUNNING, 2 BLOCKED, 3 TERMINATED
+Ready(t) == st[t] \in {"created", "ready", "resumable"}
+Primary(u) == /\ st[u] = "none" /\ st' = [st EXCEPT ![u] = "running"]
+              /\ UNCHANGED <<arg, tok, cst, starts, inYield, mg, inpool, expect, rin>>
+PrimaryDone(u) == /\ st[u] = "running" /\ st' = [st EXCEPT ![u] = "freed"]
+              /\ UNCHANGED <<arg, tok, cst, starts, inYield, mg, inpool, expect, rin>>
+\* the caller takes a ready unit out of the pool
+Pop(by, t) == /\ ByOK(by) /\ Ready(t) /\ inpool[t]
+              /\ inpool' = [inpool EXCEPT ![t] = FALSE]
+              /\ UNCHANGED <<st, arg, tok, cst, starts, inYield, mg, expect, rin>>
+\* what a primitive does to the caller u and the target t, and what t must see
+Prim(u, op, t, a) ==
+    /\ st[u] = "running" /\ expect = NoExpect
+    /\ CASE op \in {"yield_to", "thread_yield_to"} ->
+               /\ Ready(t) /\ inpool[t] = (op = "thread_yield_to")
+               /\ st' = [st EXCEPT ![u] = "ready"]
+               /\ inpool' = [inpool EXCEPT ![u] = TRUE, ![t] = FALSE]
+               /\ expect' = [next |-> t, of |-> u, ost |-> 0]
+               /\ UNCHANGED <<arg, tok, starts>>
+         [] op = "suspend_to" ->
+               /\ Ready(t) /\ ~inpool[t]
+               /\ st' = [st EXCEPT ![u] = "blocked"]
+               /\ expect' = [next |-> t, of |-> u, ost |-> 2]
+               /\ UNCHANGED <<arg, tok, starts, inpool>>
+         [] op = "exit_to" ->
+               /\ Ready(t) /\ ~inpool[t]
+               /\ st' = [st EXCEPT ![u] = "done"] /\ tok' = [tok EXCEPT ![u] = arg[u]]
+               /\ expect' = [next |-> t, of |-> u, ost |-> 3]
+               /\ UNCHANGED <<arg, starts, inpool>>
+         [] op = "resume_yield_to" ->
+               /\ st[t] = "blocked"
+               /\ st' = [st EXCEPT ![u] = "ready", ![t] = "resumable"]
+               /\ inpool' = [inpool EXCEPT ![u] = TRUE]
+               /\ expect' = [next |-> t, of |-> u, ost |-> 0]
+               /\ UNCHANGED <<arg, tok, starts>>
+         [] op = "resume_suspend_to" ->
+               /\ st[t] = "blocked"
+               /\ st' = [st EXCEPT ![u] = "blocked", ![t] = "resumable"]
+               /\ expect' = [next |-> t, of |-> u, ost |-> 2]
+               /\ UNCHANGED <<arg, tok, starts, inpool>>
+         [] op = "resume_exit_to" ->
+               /\ st[t] = "blocked"
+               /\ st' = [st EXCEPT ![u] = "done", ![t] = "resumable"] /\ tok' = [tok EXCEPT ![u] = arg[u]]
+               /\ expect' = [next |-> t, of |-> u, ost |-> 3]
+               /\ UNCHANGED <<arg, starts, inpool>>
+         [] op = "create_to" ->
+               /\ st[t] = "none"
+               /\ st' = [st EXCEPT ![u] = "ready", ![t] = "created"] /\ arg' = [arg EXCEPT ![t] = a]
+               /\ inpool' = [inpool EXCEPT ![u] = TRUE]
+               /\ expect' = [next |-> t, of |-> u, ost |-> 0]
+               /\ UNCHANGED <<tok, starts>>
+         [] op = "revive_to" ->
+               /\ st[t] = "done"
+               /\ st' = [st EXCEPT ![u] = "ready", ![t] = "created"] /\ arg' = [arg EXCEPT ![t] = a]
+               /\ tok' = [tok EXCEPT ![t] = 0] /\ starts' = [starts EXCEPT ![t] = 0]
+               /\ inpool' = [inpool EXCEPT ![u] = TRUE]
+               /\ expect' = [next |-> t, of |-> u, ost |-> 0]
+         [] op = "resume" ->
+               /\ st[t] = "blocked"
+               /\ st' = [st EXCEPT ![t] = "ready"] /\ inpool' = [inpool EXCEPT ![t] = TRUE]
+               /\ UNCHANGED <<arg, tok, starts, expect>>
+         [] op = "yield" ->
+               /\ st' = [st EXCEPT ![u] = "ready"] /\ inpool' = [inpool EXCEPT ![u] = TRUE]
+               /\ UNCHANGED <<arg, tok, starts, expect>>
+         [] op = "suspend" ->
+               /\ st' = [st EXCEPT ![u] = "blocked"]
+               /\ UNCHANGED <<arg, tok, starts, inpool, expect, rin>>
+    /\ (op \notin {"create_to", "revive_to"} => arg' = arg)
+    /\ (op \notin {"exit_to", "resume_exit_to", "revive_to"} => tok' = tok)
+    /\ (op # "revive_to" => starts' = starts)
+    /\ UNCHANGED <<cst, inYield, mg, rin>>
+\* u has control.  If a directed switch is pending, u must be the named target
+\* and must see the caller in the documented state.  The pool's size and total
+\* size it reads must match: size = units in the pool, total - size = blocked units.
+Run(u, of, ost, size, total) ==
+    /\ st[u] \in {"ready", "resumable", "running"}
+    /\ IF expect # NoExpect THEN u = expect.next /\ of = expect.of /\ ost = expect.ost
+                            ELSE of = -1
+    /\ st' = [st EXCEPT ![u] = "running"] /\ inpool' = [inpool EXCEPT ![u] = FALSE]
+    \* (a resume in progress on another stream may or may not have pushed / uncounted its unit yet)
+    /\ LET bs == Cardinality({v \in Units : inpool'[v] /\ v \notin rin})
+           bb == Cardinality({v \in Units : st'[v] = "blocked"})
+           k == Cardinality(rin)
+       IN /\ size \in bs..(bs + k)
+          /\ (total - size) \in bb..(bb + k)
+    /\ expect' = NoExpect
+    /\ UNCHANGED <<arg, tok, cst, starts, inYield, mg, rin>>
 
 \* stream join / finalize return only after every covered unit has terminated
 AllTerminated(us) == \A u \in us : Terminated(u)
